@@ -1127,6 +1127,13 @@ int32 psX509ParseCRL(psPool_t *pool, psX509Crl_t **crl, unsigned char *crlBin,
                 }
 
                 /* skipping crlEntryExtensions */
+                if ((uint32) (p - start) + timelen > ilen)
+                {
+                    /* serial number and date do not fit the entry */
+                    psTraceCrypto("Malformed revokedCert in psX509ParseCRL\n");
+                    psX509FreeCRL(lcrl);
+                    return PS_PARSE_FAIL;
+                }
                 p += ilen - (uint32) (p - start);
                 if (glen < (uint32) (p - revStart))
                 {
